@@ -19,6 +19,27 @@ Record st := mk {
   asz  : Z              (* DataFrame.arraysize *)
 }.
 
+(* Python's  l[o : o + k]  as DataFrame.slice(offset, length) computes it (dataframe.py slice):
+   a negative offset counts from the end (clamped at 0); length None -> to the end; length 0 -> nothing;
+   otherwise the stop index o + k, which Python again counts from the end when it is negative. *)
+Definition py_slice (l : list A) (off : Z) (len : option Z) : list A :=
+  let n := Z.of_nat (length l) in
+  let o := if (off <? 0)%Z then Z.max 0 (n + off) else off in
+  match len with
+  | None => skipn (Z.to_nat o) l
+  | Some k =>
+      if (k =? 0)%Z then []
+      else let stop := (o + k)%Z in
+           let stop' := if (stop <? 0)%Z then Z.max 0 (n + stop) else stop in
+           firstn (Z.to_nat (stop' - o)) (skipn (Z.to_nat o) l)
+  end.
+
+(* what a read-only observer reports about the frame: how many rows / which rows *)
+Inductive view :=
+| VCount                                   (* rowcount, len, shape *)
+| VRows (off : Z) (len : option Z).        (* the rows of slice(off, len): collect / iteration / arrow /
+                                              markdown(limit) / head / tail / slice / row(i) / query / distinct *)
+
 Inductive op :=
 | FetchOne
 | FetchMany (k : option Z)       (* None = size omitted -> arraysize *)
@@ -26,6 +47,7 @@ Inductive op :=
 | SetArraysize (n : Z)
 | ObservePure                    (* column_names / columncount / arraysize: touch nothing *)
 | ObserveMat                     (* rowcount, len, shape, collect, iteration, slice, arrow, display, str *)
+| ObserveView (v : view)         (* the same observers, with what they report: it depends on the row store only *)
 | Append (r : A)                 (* append of an entry the frame accepts *)
 | AppendBad (r : A).             (* append of an entry that makes append raise: schema validation rejects it,
                                     the row factory cannot build a row from it, or Row.nbytes() cannot size
@@ -37,6 +59,8 @@ Inductive out :=
 | ORows (l : list A)             (* fetchmany / fetchall *)
 | OUnit                          (* observers, arraysize *)
 | ORaise                         (* the (fetch) call raised *)
+| OCount (n : nat)               (* a counting observer *)
+| OSeen (l : list A)             (* the rows an observer showed (NOT a delivery of the cursor) *)
 | OAppend (ok : bool) (n : option nat).
                                  (* an append call: did it return normally, and the length of the row store
                                     right afterwards (None while the store is a generator and has no length) *)
@@ -47,15 +71,24 @@ Definition init_lazy (l : list A) : st := mk l true (Some 0) 100.
 Definition fetch_size (s : st) (k : option Z) : nat :=
   Z.to_nat (match k with Some z => z | None => asz s end).   (* range(n) is empty for n <= 0 *)
 
+Definition view_out (v : view) (l : list A) : out :=
+  match v with
+  | VCount => OCount (length l)
+  | VRows off len => OSeen (py_slice l off len)
+  end.
+
+(* materialize(): list(generator) - the cursor is that generator, now spent *)
+Definition materialized (s : st) : st :=
+  if lazy s
+  then mk (rows s) false (match cur s with Some _ => Some (length (rows s)) | None => None end) (asz s)
+  else s.
+
 Definition step (s : st) (o : op) : st * out :=
   match o with
+  | ObserveView v => (materialized s, view_out v (rows s))
   | SetArraysize n => (mk (rows s) (lazy s) (cur s) n, OUnit)
   | ObservePure => (s, OUnit)
-  | ObserveMat =>
-      if lazy s
-      then (* list(generator): the cursor is that generator, now spent *)
-           (mk (rows s) false (match cur s with Some _ => Some (length (rows s)) | None => None end) (asz s), OUnit)
-      else (s, OUnit)
+  | ObserveMat => (materialized s, OUnit)
   | Append r =>
       if lazy s then (s, OAppend false None)   (* generator has no append; raised before the cursor is dropped *)
       else (mk (rows s ++ [r]) false None (asz s), OAppend true (Some (length (rows s ++ [r]))))
@@ -122,13 +155,92 @@ Definition appended_of (o : op) : list A := match o with Append r => [r] | _ => 
 Definition appended (ops : list op) : list A := flat_map appended_of ops.
 Definition is_fetch (o : op) : bool :=
   match o with FetchOne | FetchMany _ | FetchAll => true | _ => false end.
-Definition is_mat (o : op) : bool := match o with ObserveMat => true | _ => false end.
+Definition is_mat (o : op) : bool := match o with ObserveMat | ObserveView _ => true | _ => false end.
+
+(* ---------- sessions over several frames: object identity made explicit ----------
+   A heap of frames; frame i of the heap is a DataFrame object.  [On i o] calls o on frame i;
+   [Derive i d] calls a frame-returning observer (slice / head / tail / query / distinct) on
+   frame i and keeps the returned object as a NEW frame at the end of the heap: it owns its row
+   list and its cursor (DataFrame(rows=<new list>, schema=...) -> iter(new list)). *)
+Inductive dop :=
+| DSlice (off : Z) (len : option Z)        (* slice(off, len); head(n) = slice(0, n); tail(n) = slice(-n, n) *)
+| DQuery (p : A -> bool).                  (* query(p); distinct() on distinct rows is DQuery (fun _ => true) *)
+
+Inductive sop :=
+| On (i : nat) (o : op)
+| Derive (i : nat) (d : dop).
+
+Inductive sout :=
+| SOut (x : out)
+| SDerived (l : list A)                    (* the rows of the frame handed back *)
+| SBad.                                    (* no such frame *)
+
+Definition derive_rows (d : dop) (l : list A) : list A :=
+  match d with
+  | DSlice off len => py_slice l off len
+  | DQuery p => filter p l
+  end.
+
+(* what the call does to the frame it is called on: slice materialises; query/distinct iterate the
+   row store directly (a generator-backed source is drained and stays a - now empty - generator) *)
+Definition src_after (d : dop) (s : st) : st :=
+  match d with
+  | DSlice _ _ => materialized s
+  | DQuery _ => if lazy s then mk [] true (cur s) (asz s) else s
+  end.
+
+Fixpoint update (h : list st) (i : nat) (s : st) : list st :=
+  match h, i with
+  | [], _ => []
+  | _ :: t, O => s :: t
+  | x :: t, S i' => x :: update t i' s
+  end.
+
+Definition sstep (h : list st) (o : sop) : list st * sout :=
+  match o with
+  | On i o =>
+      match nth_error h i with
+      | Some s => let '(s', x) := step s o in (update h i s', SOut x)
+      | None => (h, SBad)
+      end
+  | Derive i d =>
+      match nth_error h i with
+      | Some s => let l := derive_rows d (rows s) in
+                  (update h i (src_after d s) ++ [init_eager l], SDerived l)
+      | None => (h, SBad)
+      end
+  end.
+
+Fixpoint srun (h : list st) (ops : list sop) : list st * list sout :=
+  match ops with
+  | [] => (h, [])
+  | o :: r => let '(h1, x) := sstep h o in
+              let '(h2, xs) := srun h1 r in (h2, x :: xs)
+  end.
+
+(* the calls a session makes on frame j, and what they returned *)
+Definition sel_op (j : nat) (o : sop) : list op :=
+  match o with On i o => if Nat.eqb i j then [o] else [] | Derive _ _ => [] end.
+Definition sel (j : nat) (ops : list sop) : list op := flat_map (sel_op j) ops.
+
+Fixpoint outs_for (j : nat) (ops : list sop) (xs : list sout) : list out :=
+  match ops, xs with
+  | On i _ :: r, SOut x :: t => if Nat.eqb i j then x :: outs_for j r t else outs_for j r t
+  | _ :: r, _ :: t => outs_for j r t
+  | _, _ => []
+  end.
 
 End Cursor.
 
 Arguments mk {A}. Arguments rows {A}. Arguments lazy {A}. Arguments cur {A}. Arguments asz {A}.
 Arguments FetchOne {A}. Arguments FetchMany {A}. Arguments FetchAll {A}.
 Arguments SetArraysize {A}. Arguments ObservePure {A}. Arguments ObserveMat {A}. Arguments Append {A}.
+Arguments ObserveView {A}. Arguments OCount {A}. Arguments OSeen {A}. Arguments py_slice {A}.
+Arguments view_out {A}. Arguments materialized {A}.
+Arguments DSlice {A}. Arguments DQuery {A}. Arguments On {A}. Arguments Derive {A}.
+Arguments SOut {A}. Arguments SDerived {A}. Arguments SBad {A}.
+Arguments derive_rows {A}. Arguments src_after {A}. Arguments update {A}. Arguments sstep {A}. Arguments srun {A}.
+Arguments sel_op {A}. Arguments sel {A}. Arguments outs_for {A}.
 Arguments AppendBad {A}. Arguments OAppend {A}. Arguments appended_of {A}. Arguments appended {A}.
 Arguments ORow {A}. Arguments ORows {A}. Arguments OUnit {A}. Arguments ORaise {A}.
 Arguments init_eager {A}. Arguments init_lazy {A}. Arguments step {A}. Arguments run {A}.
@@ -143,6 +255,8 @@ Definition out_eqb (a b : out Z) : bool :=
   | ORows l1, ORows l2 => if list_eq_dec Z.eq_dec l1 l2 then true else false
   | OUnit, OUnit => true
   | ORaise, ORaise => true
+  | OCount x, OCount y => Nat.eqb x y
+  | OSeen l1, OSeen l2 => if list_eq_dec Z.eq_dec l1 l2 then true else false
   | OAppend k1 n1, OAppend k2 n2 =>
       Bool.eqb k1 k2 &&
       match n1, n2 with
@@ -168,3 +282,27 @@ Definition c04_check (c : bool * list Z * list (op Z) * list (out Z)) : bool :=
 Definition c04_show (c : bool * list Z * list (op Z) * list (out Z)) : list (out Z) :=
   let '(lz, l, ops, obs) := c in
   snd (run (if lz then init_lazy l else init_eager l) ops).
+
+(* ---- sessions: (lazy?, initial rows of frame 0, session, outputs observed on the implementation) ---- *)
+Definition sout_eqb (a b : sout Z) : bool :=
+  match a, b with
+  | SOut x, SOut y => out_eqb x y
+  | SDerived l1, SDerived l2 => if list_eq_dec Z.eq_dec l1 l2 then true else false
+  | SBad, SBad => true
+  | _, _ => false
+  end.
+
+Fixpoint souts_eqb (a b : list (sout Z)) : bool :=
+  match a, b with
+  | [], [] => true
+  | x :: r, y :: s => sout_eqb x y && souts_eqb r s
+  | _, _ => false
+  end.
+
+Definition c04_scheck (c : bool * list Z * list (sop Z) * list (sout Z)) : bool :=
+  let '(lz, l, ops, obs) := c in
+  souts_eqb (snd (srun [if lz then init_lazy l else init_eager l] ops)) obs.
+
+Definition c04_sshow (c : bool * list Z * list (sop Z) * list (sout Z)) : list (sout Z) :=
+  let '(lz, l, ops, obs) := c in
+  snd (srun [if lz then init_lazy l else init_eager l] ops).
